@@ -133,7 +133,7 @@ def check_big(item):
             a.append(j)
             j = f.parent[j]
         anc[i] = a
-    for k in range(12):
+    for k in range(12 if len(pts) < 100 else 2):
         g = SimGenerator(mode="choose", tail_seed=runner.hash64(seed, k))
         order = [int(d.idx) for d in RootPermutationDistribution.sample(tree, g)]
         if sorted(order) != pts:
@@ -170,6 +170,36 @@ def random_forest(r, n):
         par.append(r.choice([-1] + list(range(i))) if i else -1)
     # parents must come later in some order; reverse index so that parent index > child is irrelevant here
     return Forest(tuple(own), tuple(par), frozenset(out))
+
+
+def huge_forest(r):
+    """Hundreds to a thousand data points: clones and outlier sets beyond 170 members (170! is the largest factorial a double
+    holds) and sibling subtrees of 500+ points each (binomial coefficients beyond the double range)."""
+    kind = r.choice(["clone", "outliers", "split", "mixed"])
+    sizes, par, n_out = [], [], 0
+    if kind == "clone":
+        sizes = [r.choice([171, 180, 256, 400])] + [r.choice([1, 2, 5]) for _ in range(r.choice([0, 2, 5]))]
+    elif kind == "outliers":
+        sizes = [r.choice([1, 3, 10]) for _ in range(r.choice([0, 1, 4]))]
+        n_out = r.choice([171, 200, 300])
+    elif kind == "split":
+        half = r.choice([520, 560])
+        k = r.choice([4, 10])
+        sizes = [half // k] * (2 * k)
+    else:
+        sizes = [r.choice([30, 90, 175, 210]) for _ in range(r.choice([3, 6]))]
+        n_out = r.choice([0, 5, 180])
+    for i in range(len(sizes)):
+        if kind == "split":
+            k = len(sizes) // 2
+            par.append(-1 if i % k == 0 else i - 1)  # two chains side by side
+        else:
+            par.append(r.choice([-1] + list(range(i))) if i else -1)
+    own, nxt = [], 0
+    for s_ in sizes:
+        own.append(frozenset(range(nxt, nxt + s_)))
+        nxt += s_
+    return Forest(tuple(own), tuple(par), frozenset(range(nxt, nxt + n_out)))
 
 
 def shrink(f, pred):
@@ -239,6 +269,9 @@ def run(ctx):
     big = []
     for i in range(60 if quick else 1500):
         big.append((forest_json(random_forest(r2, r2.choice([9, 12, 13, 16, 20, 30]))), ctx.sub(("big", i))))
+    for i in range(8 if quick else 120):
+        big.append((forest_json(huge_forest(r2)), ctx.sub(("huge", i))))
+    ctx.probe("trees_with_170_plus_members_or_1000_plus_points", 8 if quick else 120)
     for (fj, sd), out in zip(big, runner.pmap(check_big, big, timeout=1200)):
         for key, detail in out["problems"]:
             ctx.violation(key, detail, {"forest": fj, "build_seed": sd, "key": key, "big": True})
